@@ -266,14 +266,19 @@ func startProcess(name string, argv []string, attr *os.ProcAttr) error {
 		return fmt.Errorf("verif: instance is being torn down")
 	}
 	by := w.byGid[g]
-	w.nextD++
-	id := w.nextD
-	w.mu.Unlock()
 	s := 0
 	if by != nil {
 		s = by.id
 	}
-	w.startDaemon(id, s, sock, db, true)
+	w.nextD++
+	id := w.nextD
+	if !w.gate && !w.stopped {
+		// id allocation and its log entry are one critical section: the trace specification
+		// numbers daemons in the order of the DaemonStart events
+		w.evs = append(w.evs, event{Ev: "DaemonStart", D: id, S: s})
+	}
+	w.mu.Unlock()
+	w.startDaemon(id, s, sock, db, false)
 	return nil
 }
 
